@@ -115,7 +115,7 @@ func checkBothWays(c *core.Case, family string, t reflect.Type, md protoreflect.
 		return
 	}
 	got := pdesc.FromDynamic(msg, t)
-	if ok, d := ptypes.Equal(v, got); !ok {
+	if ok, d := ptypes.EqualSign(v, got); !ok {
 		c.Violation(class, "reference-decodes-differently", fmt.Sprintf("Marshal output %x read by the reference implementation: %s | value %s | reference sees %s", tr(pb), d, show(v), show(got)), w)
 		return
 	}
